@@ -106,7 +106,7 @@ def frame_mc(v, scr, cfgs, thorough=False):
 
 
 def generic_sess_check(prop, tier, replay, level, invariants, tests, names, env_quick, env_thorough, rule, assumptions, mc_cfgs=(),
-                       known=None):
+                       known=None, extra_stage=None):
     v = vlib.Verdict(prop, tier, level)
     scr = vlib.Scratch(prop.lower())
     th = tier == "thorough"
@@ -124,6 +124,8 @@ def generic_sess_check(prop, tier, replay, level, invariants, tests, names, env_
             v.cov["distinct_nontrivial"] = max(2, v.cov["distinct_nontrivial"])
             return v.finish()
         frame_mc(v, scr, mc_cfgs, th)
+        if extra_stage:
+            extra_stage(v, scr, th)
         outd = run_sess(v, scr, prop, tests, env)
         if outd:
             validate_sess(v, scr, prop, outd, names, invariants, known)
@@ -161,6 +163,30 @@ def check_c09(tier, replay):
                               SESS_ASSUME, mc_cfgs="frame")
 
 
+def c10_stage(v, scr, th):
+    """(a) the pinned framing model (parity sent whatever the MTU in force) must still be refuted by TLC -- the machinery sees the
+    repaired defect; (b) its deterministic witness on the real code: a smaller MTU accepted while an FEC group is open."""
+    r = vlib.run_tlc(scr, "FrameMC", "Frame_pinned_crc_2_1.cfg", timeout=600)
+    if r.ok or r.violation != "LenBound":
+        raise MachineryError("Frame_pinned_crc_2_1.cfg: TLC no longer finds the pre-repair parity defect (%s)" % r.violation)
+    v.notes.setdefault("tlc_runs", []).append(dict(label="Frame_pinned_crc_2_1.cfg (must be refuted: LenBound)", **r.summary()))
+    rc, out = vlib.go_test("./sessdrv", "TestWitnessParityAfterShrink$", dict(VERIF_WITNESS_EXPECT="held"), timeout=300)
+    if rc != 0:
+        if "oversize parity packet after an accepted smaller MTU" in out or "an oversize datagram that is not the parity" in out:
+            v.violation("C10/C10_LenWithinMtu/ParityOfGroupOpenAtShrink",
+                        "a datagram above the accepted MTU: SetMtu(576) accepted while an FEC group (3+1) holding a 1128-byte data packet "
+                        "is open; the parity packet is as long as that data packet\n" + out[-1500:],
+                        dict(kind="sess-run", tests="TestWitnessParityAfterShrink$", env=dict(VERIF_WITNESS_EXPECT="held"), seed=vlib.seed()))
+        else:
+            cs = crash_signature(out)
+            if cs and cs[0] == "panic":
+                v.violation("C10/ProcessPanic", "the process panicked inside kcp-go: %s\n%s" % (cs[1], out[-2500:]),
+                            dict(kind="sess-run", tests="TestWitnessParityAfterShrink$", env={}, seed=vlib.seed()))
+            else:
+                raise MachineryError("witness driver failed:\n" + out[-3000:])
+    v.cov["evaluations"] += 1
+
+
 def check_c10(tier, replay):
     inv = ["C10_LenWithinMtu", "C09_Layout"]
     return generic_sess_check("C10", tier, replay, "model_checking", inv, "TestSessTransfer$|TestSessMtu$", ("sess_transfer", "sess_mtu"),
@@ -168,8 +194,9 @@ def check_c10(tier, replay):
                               RULE_TRANSFER + "; SetMtu with boundary values (header+24, +25, +50, 300..1500, 1600, 100000, -5, 0) at random "
                               "points of the transfer, OOB of GetOOBMaxSize and +1; the wire monitor compares every datagram length with the "
                               "session MTU in force; the core's own output sizes are judged by C10_OutSize in the core traces",
-                              SESS_ASSUME + ["a datagram built before a shrinking SetMtu returned and sent at the same instant is judged by the previous MTU"],
-                              mc_cfgs="frame")
+                              SESS_ASSUME + ["a datagram built before a shrinking SetMtu returned and sent at the same instant is judged by the previous MTU",
+                                             "while a SetMtu call is executing either the old or the new value may be in force"],
+                              mc_cfgs="frame", extra_stage=c10_stage)
 
 
 def check_c19(tier, replay):
